@@ -1,6 +1,12 @@
 package main
 
-import "golang.org/x/tools/go/ssa"
+import (
+	"fmt"
+	"sort"
+	"strings"
+
+	"golang.org/x/tools/go/ssa"
+)
 
 func init() { register("C11", propC11) }
 
@@ -17,8 +23,264 @@ func propC11(c *Ctx) propInfo {
 	}
 	c.floor("E8.mustcheck", 1)
 	c.floor("E8.bounds", 1)
+	c.adnlLayouts()
+	c.cipherContinuity()
+	c.sendUnderLock()
+	c.floor("E7.bytelayout", 12)
 	return propInfo{
 		explanation: "Static structural clauses of C11 (see DESIGN.md §4 C11): checksum/length validation dominates every success exit of ParsePacket; constant byte layouts of packet, session parameters and handshake agree between writer, reader and spec table; stream-cipher objects are created once and every received byte is decrypted before use. Decides these necessary conditions, not interoperability or cryptographic correctness.",
 		assumptions: []string{"crypto primitives (AES-CTR, SHA-256, X25519) behave as documented", "io.ReadFull handles TCP segmentation"},
 	}
+}
+
+func (c *Ctx) adnlLayouts() {
+	const R = "E7.bytelayout"
+	// Packet.marshal: LE32(len+64) | nonce32 | payload | sha256
+	if f := c.mustFn(R, "liteclient", "Packet.marshal"); f != nil {
+		c.layoutIs(R, "Packet.marshal = size4 | nonce32 | payload | hash32", f, c.byteWrites(f), []byteField{
+			{"", "4", "copy", "size"}, {"4", "36", "copy", "nonce"}, {"36", "(36+len(*_.Payload))", "copy", "Payload"}, {"(36+len(*_.Payload))", "", "copy", "hash"},
+		})
+	}
+	if f := c.mustFn(R, "liteclient", "Packet.size"); f != nil {
+		ws := c.byteWrites(f)
+		okv := len(ws) == 1 && ws[0].how == "LE32" && strings.Contains(ws[0].what, "+32)+32)")
+		c.check(okv, R, "Packet.size = LE32(len(payload)+64)", f.Pos(), "little-endian 32-bit length of nonce+payload+checksum", "Packet.size no longer encodes len(payload)+32+32 as a little-endian 32-bit word: "+fieldsString(ws))
+	}
+	// ParsePacket reads: nonce = data[:32], payload = data[32:length-32], checksum = data[length-32:]
+	if f := c.mustFn(R, "liteclient", "ParsePacket"); f != nil {
+		var sl []string
+		allInstrs(f, func(_ *ssa.BasicBlock, in ssa.Instruction) {
+			if s, ok := in.(*ssa.Slice); ok {
+				if mk, ok := s.X.(*ssa.MakeSlice); ok {
+					_ = mk
+					sl = append(sl, "["+offShape(s.Low)+":"+offShape(s.High)+"]")
+				}
+			}
+		})
+		sort.Strings(sl)
+		got := strings.Join(sl, " ")
+		okSplit := false
+		if len(sl) == 3 && sl[2] == "[:32]" && strings.HasPrefix(sl[1], "[32:(") && strings.HasSuffix(sl[1], "-32)]") && strings.HasSuffix(sl[0], "-32):]") {
+			x1 := strings.TrimSuffix(strings.TrimPrefix(sl[1], "[32:("), "-32)]")
+			x0 := strings.TrimSuffix(strings.TrimPrefix(sl[0], "[("), "-32):]")
+			okSplit = x0 == x1
+		}
+		c.check(okSplit, R,
+			"ParsePacket splits nonce[0:32] | payload[32:n-32] | checksum[n-32:]", f.Pos(), got, "ParsePacket slices the decrypted frame as "+got+"; the frame is nonce[0:32] payload[32:n-32] checksum[n-32:n]")
+		rs := c.byteReads(f)
+		c.check(len(rs) == 1 && rs[0].how == "LE32", R, "ParsePacket reads the length little-endian", f.Pos(), "LE32", "ParsePacket no longer reads the 4-byte length little-endian")
+		// the checksum is sha256 over nonce|payload: compare against p.hash()
+		okHash := false
+		for _, cl := range callsTo(f, "bytes.Equal") {
+			okHash = derivesFrom(cl.Call.Args[1], callResult(modPath+"/liteclient.Packet.hash"), false) || derivesFrom(cl.Call.Args[0], callResult(modPath+"/liteclient.Packet.hash"), false)
+		}
+		c.check(okHash, R, "the trailer is compared with sha256(nonce|payload)", f.Pos(), "bytes.Equal(trailer, p.hash())", "ParsePacket no longer compares the trailer with the hash of nonce and payload")
+	}
+	if f := c.mustFn(R, "liteclient", "Packet.hash"); f != nil {
+		var ws []string
+		allInstrs(f, func(_ *ssa.BasicBlock, in ssa.Instruction) {
+			if cl, ok := in.(*ssa.Call); ok && cl.Call.IsInvoke() && cl.Call.Method.Name() == "Write" {
+				ws = append(ws, shape(cl.Call.Args[0], 3))
+			}
+		})
+		c.check(len(ws) == 2 && strings.Contains(ws[0], "nonce") && strings.Contains(ws[1], "Payload") && len(callsTo(f, "crypto/sha256.New")) == 1, R, "checksum = sha256(nonce | payload)", f.Pos(), strings.Join(ws, " | "), "Packet.hash no longer hashes the nonce followed by the payload with SHA-256: "+strings.Join(ws, " | "))
+	}
+	// session parameters: rx key 0:32, tx key 32:64, rx nonce 64:80, tx nonce 80:96
+	for name, want := range map[string][2]string{"params.rxKey": {"0", "32"}, "params.txKey": {"32", "64"}, "params.rxNonce": {"64", "80"}, "params.txNonce": {"80", "96"}} {
+		f := c.mustFn(R, "liteclient", name)
+		if f == nil {
+			continue
+		}
+		got := ""
+		for _, r := range returnsOf(f) {
+			if s, ok := retVal(r, 0).(*ssa.Slice); ok {
+				lo := offShape(s.Low)
+				if lo == "" {
+					lo = "0"
+				}
+				got = lo + ":" + offShape(s.High)
+			}
+		}
+		c.check(got == want[0]+":"+want[1], R, name+" = params["+want[0]+":"+want[1]+"]", f.Pos(), got, fmt.Sprintf("%s returns params[%s]; the ADNL session parameter block is rx_key[0:32] tx_key[32:64] rx_nonce[64:80] tx_nonce[80:96] padding[96:160]", name, got))
+	}
+	// handshake request: key id 0:32, ephemeral public key 32:64, params hash 64:96, encrypted params 96:256
+	if f := c.mustFn(R, "liteclient", "encryptedConn.handshake"); f != nil {
+		c.layoutIs(R, "handshake = keyid32 | pubkey32 | params hash32 | encrypted params160", f, c.byteWrites(f), []byteField{
+			{"", "32", "copy", "hash"}, {"32", "64", "copy", "public"}, {"64", "96", "copy", "hash"}, {"96", "", "copy", ""},
+		})
+		// key = shared[0:16] | hash[16:32] ; nonce = hash[0:4] | shared[20:32]
+		var pieces []string
+		allInstrs(f, func(_ *ssa.BasicBlock, in ssa.Instruction) {
+			if cl, ok := in.(*ssa.Call); ok {
+				if b, ok := cl.Call.Value.(*ssa.Builtin); ok && b.Name() == "append" {
+					if s, ok := cl.Call.Args[1].(*ssa.Slice); ok {
+						what := "shared"
+						if derivesFrom(s.X, callResult(modPath+"/liteclient.params.hash"), false) {
+							what = "hash"
+						}
+						if _, isArr := arrayLen(s.X.Type()); isArr && what == "shared" && !strings.Contains(shape(s.X, 3), "shared") {
+							return
+						}
+						lo := offShape(s.Low)
+						if lo == "" {
+							lo = "0"
+						}
+						pieces = append(pieces, fmt.Sprintf("%s[%s:%s]", what, lo, offShape(s.High)))
+					}
+				}
+			}
+		})
+		got := strings.Join(pieces, " ")
+		c.check(strings.Contains(got, "shared[0:16] hash[16:32] hash[0:4] shared[20:32]"), R, "handshake key = shared[0:16]|hash[16:32], nonce = hash[0:4]|shared[20:32]", f.Pos(), got, "the handshake key/nonce derivation is "+got+"; ADNL requires key = shared[0:16]|hash[16:32], nonce = hash[0:4]|shared[20:32]")
+	}
+	if f := c.mustFn(R, "liteclient", "Address.hash"); f != nil {
+		okv := false
+		allInstrs(f, func(_ *ssa.BasicBlock, in ssa.Instruction) {
+			if st, ok := in.(*ssa.Store); ok {
+				if k, ok := constInt(st.Val); ok && k == 0xc6 {
+					okv = true
+				}
+			}
+		})
+		c.check(okv, R, "key id = sha256(c6 b4 13 48 | pubkey)", f.Pos(), "pub.ed25519 constructor id prefix", "Address.hash no longer prefixes the public key with the pub.ed25519 constructor id c6b41348")
+	}
+}
+
+// cipherContinuity: cipher / decipher are created once, in the constructor, from the tx / rx
+// parameters; received bytes are decrypted exactly once before use; every read from the socket
+// in ParsePacket goes through io.ReadFull.
+func (c *Ctx) cipherContinuity() {
+	const R = "E10.cipher-continuity"
+	la := &lockAnalysis{c: c, funcs: c.moduleFuncs("liteclient")}
+	la.whoMayWrite(R, "liteclient.encryptedConn.cipher", map[string]string{})
+	la.whoMayWrite(R, "liteclient.encryptedConn.decipher", map[string]string{})
+	if f := c.mustFn(R, "liteclient", "newEncryptedConnection"); f != nil {
+		roles := map[string]string{}
+		allInstrs(f, func(_ *ssa.BasicBlock, in ssa.Instruction) {
+			st, ok := in.(*ssa.Store)
+			if !ok {
+				return
+			}
+			_, fn, ok := fieldOf(st.Addr)
+			if !ok || (fn != "cipher" && fn != "decipher") {
+				return
+			}
+			if cl := callOf(stripConv(st.Val)); cl != nil && callQName(&cl.Call) == "crypto/cipher.NewCTR" {
+				key, nonce := "?", "?"
+				if bl := callOf(cl.Call.Args[0]); bl != nil && len(bl.Call.Args) > 0 {
+					if k := callOf(bl.Call.Args[0]); k != nil {
+						key = calleeFunc(&k.Call).Name()
+					}
+				}
+				if nn := callOf(cl.Call.Args[1]); nn != nil {
+					nonce = calleeFunc(&nn.Call).Name()
+				}
+				roles[fn] = key + "/" + nonce
+			}
+		})
+		c.check(roles["cipher"] == "txKey/txNonce" && roles["decipher"] == "rxKey/rxNonce", R, "cipher uses tx key+nonce, decipher uses rx key+nonce", f.Pos(), fmt.Sprint(roles), fmt.Sprintf("the stream ciphers are keyed as %v; sending must use (txKey, txNonce) and receiving (rxKey, rxNonce)", roles))
+	}
+	if f := c.mustFn(R, "liteclient", "ParsePacket"); f != nil {
+		// every read on the reader parameter is io.ReadFull
+		okRead := true
+		n := 0
+		allInstrs(f, func(_ *ssa.BasicBlock, in ssa.Instruction) {
+			cl, ok := in.(*ssa.Call)
+			if !ok {
+				return
+			}
+			uses := false
+			for _, a := range cl.Call.Args {
+				if a == ssa.Value(f.Params[0]) {
+					uses = true
+				}
+			}
+			if cl.Call.IsInvoke() && cl.Call.Value == ssa.Value(f.Params[0]) {
+				okRead = false // direct r.Read(...)
+				n++
+			}
+			if uses {
+				n++
+				if callQName(&cl.Call) != "io.ReadFull" {
+					okRead = false
+				}
+			}
+		})
+		c.check(okRead && n == 2, R, "ParsePacket reads the stream only with io.ReadFull", f.Pos(), "two io.ReadFull calls (length, frame)", "ParsePacket reads from the connection with something other than io.ReadFull: a TCP segment boundary inside a field would be treated as a short read")
+		// each buffer filled by ReadFull is XORed (same buffer as src and dst) before any other use
+		okX := true
+		for _, rf := range callsTo(f, "io.ReadFull") {
+			buf := rf.Call.Args[1]
+			var xor *ssa.Call
+			allInstrs(f, func(_ *ssa.BasicBlock, in ssa.Instruction) {
+				if cl, ok := in.(*ssa.Call); ok && cl.Call.IsInvoke() && cl.Call.Method.Name() == "XORKeyStream" && cl.Call.Args[0] == buf && cl.Call.Args[1] == buf && cl.Call.Value == ssa.Value(f.Params[1]) {
+					xor = cl
+				}
+			})
+			if xor == nil {
+				okX = false
+				continue
+			}
+			// other uses of buf (besides ReadFull, len, the XOR) are dominated by the XOR
+			for _, r := range realRefs(buf) {
+				if r == ssa.Instruction(rf) || r == ssa.Instruction(xor) {
+					continue
+				}
+				if cl, ok := r.(*ssa.Call); ok {
+					if b, ok := cl.Call.Value.(*ssa.Builtin); ok && b.Name() == "len" {
+						continue
+					}
+				}
+				if !(xor.Block().Dominates(r.Block()) && (xor.Block() != r.Block() || before(xor, r))) {
+					okX = false
+				}
+			}
+		}
+		c.check(okX, R, "received bytes are decrypted once, in place, before they are interpreted", f.Pos(), "ReadFull(x) < XORKeyStream(x, x) < every other use of x, with the decryptor parameter", "ParsePacket interprets bytes read from the socket before (or without) decrypting them with the connection's stream")
+	}
+	// every ParsePacket call on an encryptedConn passes that connection's decipher; send XORs the whole buffer with cipher
+	for _, f := range c.moduleFuncs("liteclient") {
+		for _, cl := range callsTo(f, modPath+"/liteclient.ParsePacket") {
+			okv := derivesFrom(cl.Call.Args[1], fieldLoadNamed("decipher"), false)
+			c.check(okv, R, fnName(f)+" parses with the connection's decipher", cl.Pos(), "ParsePacket(_, econn.decipher)", fnName(f)+" calls ParsePacket with a cipher stream that is not the connection's persistent decipher: the CTR state would not carry across packets")
+		}
+	}
+	if f := c.mustFn(R, "liteclient", "encryptedConn.send"); f != nil {
+		okv := false
+		var xor, wr *ssa.Call
+		allInstrs(f, func(_ *ssa.BasicBlock, in ssa.Instruction) {
+			if cl, ok := in.(*ssa.Call); ok && cl.Call.IsInvoke() {
+				if cl.Call.Method.Name() == "XORKeyStream" && cl.Call.Args[0] == ssa.Value(f.Params[1]) && cl.Call.Args[1] == ssa.Value(f.Params[1]) && derivesFrom(cl.Call.Value, fieldLoadNamed("cipher"), false) {
+					xor = cl
+				}
+				if cl.Call.Method.Name() == "Write" && cl.Call.Args[0] == ssa.Value(f.Params[1]) {
+					wr = cl
+				}
+			}
+		})
+		okv = xor != nil && wr != nil && before(xor, wr)
+		c.check(okv, R, "send encrypts the whole buffer with the persistent cipher and writes it", f.Pos(), "cipher.XORKeyStream(b, b) then conn.Write(b)", "encryptedConn.send no longer encrypts exactly the buffer it writes with the connection's persistent cipher")
+	}
+	c.floor(R, 6)
+}
+
+// sendUnderLock: encryptedConn.send is serialised by Connection.mu (shared with C12).
+func (c *Ctx) sendUnderLock() {
+	const R = "E9.K5-send-serialised"
+	la := c.newLockAnalysis("liteclient")
+	for _, f := range c.moduleFuncs("liteclient") {
+		for _, cl := range callsTo(f, modPath+"/liteclient.encryptedConn.send") {
+			key := fnName(f) + " calls encryptedConn.send"
+			ls := la.at(cl)
+			switch {
+			case ls["liteclient.Connection.mu"] == 'W':
+				c.ok(R, key, cl.Pos(), "Connection.mu held: XORKeyStream and Write of one packet cannot interleave with another sender's")
+			case fnName(f) == "(*liteclient.Connection).sendAuthRequest":
+				c.exc(R, key, cl.Pos(), "handshake of a connection whose status is still Connecting: no other sender exists yet")
+			default:
+				c.bad(R, key, cl.Pos(), "encryptedConn.send called without holding Connection.mu (lockset "+ls.String()+"): concurrent senders desynchronise the AES-CTR stream from the byte order on the wire")
+			}
+		}
+	}
+	c.floor(R, 3)
 }
